@@ -980,6 +980,15 @@ func (c *EvalCtx) readKeys(rd string) [][2]string {
 			return [][2]string{{fieldKey(tkey, g.Name, ""), arrSort("Int", vs)}}
 		}
 	}
+	if rd[i+1:] == boxField {
+		// T.*: what pointers to the non-struct type T point to (see boxField)
+		if _, isStruct := t.Underlying().(*types.Struct); !isStruct {
+			for _, lf := range eng.leaves(t) {
+				out = append(out, [2]string{fieldKey(tkey, boxField, lf.Path), arrSort("Int", lf.Sort)})
+			}
+			return out
+		}
+	}
 	st := structOf(t)
 	if st == nil {
 		c.fail("reads: %s is not a struct", rd[:i])
